@@ -78,6 +78,7 @@ func (c *objCache) apply(n int) int {
 
 type Kube struct {
 	w   *World
+	unmodelled []string // requests the simulated API server has no model for
 	mu  sync.Mutex
 	rev int64
 
@@ -312,7 +313,7 @@ func (l *simNodeLister) List(sel labels.Selector) ([]*v1.Node, error) {
 	for i := range out {
 		k.pristineOfNode[out[i]] = pristine[i]
 	}
-	if w.gscan != nil {
+	if w.gscan != nil && !w.gscan.NodesListed {
 		w.gscan.AllNodes = pristine
 	}
 	// the selector is honoured as a cache-backed lister does; the population recorded above is always complete
@@ -383,7 +384,7 @@ func (l *simPodLister) List(sel labels.Selector) ([]*v1.Pod, error) {
 	for i := range out {
 		k.pristineOfPod[out[i]] = pristine[i]
 	}
-	if w.gscan != nil {
+	if w.gscan != nil && !w.gscan.PodsListed {
 		w.gscan.AllPods = pristine
 	}
 	if sel != nil && !sel.Empty() {
@@ -449,7 +450,32 @@ func (k *Kube) RoundTrip(req *http.Request) (*http.Response, error) {
 		}
 		return k.serveNode(req, parts[1], body)
 	}
+	if strings.Contains(req.URL.Path, "/events") {
+		// Events are fire-and-forget reporting: accepted and dropped
+		k.w.stats.Probe("event posted by the code under test")
+		var body []byte
+		if req.Body != nil {
+			body, _ = io.ReadAll(req.Body)
+			req.Body.Close()
+		}
+		ev := &v1.Event{}
+		_ = json.Unmarshal(body, ev)
+		ev.TypeMeta = metav1.TypeMeta{Kind: "Event", APIVersion: "v1"}
+		return jsonResp(req, ifi(req.Method == "POST", 201, 200), ev), nil
+	}
+	// anything else is outside what the simulated API server models: the run is reported as machinery
+	// trouble, not answered with a made-up status the code under test would then act on
+	if len(k.unmodelled) < 5 {
+		k.unmodelled = append(k.unmodelled, req.Method+" "+req.URL.Path)
+	}
 	return statusResp(req, 404, metav1.StatusReasonNotFound, "sim: unknown path "+req.URL.Path, 0), nil
+}
+
+func ifi(c bool, a, b int) int {
+	if c {
+		return a
+	}
+	return b
 }
 
 func (k *Kube) serveListWatch(req *http.Request, kind string, watch bool, fieldSel string) (*http.Response, error) {
